@@ -167,6 +167,7 @@ type netw struct {
 	nDup     int
 	nHeld    int
 	directed bool
+	scriptOK bool // a directed scenario reached its end
 	maxRound int
 	nLock    int
 	nRelock  int
